@@ -7,6 +7,7 @@ mod ctx;
 mod gen;
 mod iso;
 mod model;
+mod oracle;
 mod mon;
 mod rng;
 
